@@ -133,6 +133,19 @@ class _Spell(ast.NodeTransformer):
         self.selfnames.pop()
         return fn
 
+    def visit_BinOp(self, n):
+        self.generic_visit(n)
+        # (a,) * 2 / [a] * 3 with a small literal count and a plain element: the tuple / list written out
+        if isinstance(n.op, ast.Mult):
+            for seq, cnt in ((n.left, n.right), (n.right, n.left)):
+                if isinstance(seq, ast.Tuple) and len(seq.elts) == 1 and isinstance(cnt, ast.Constant) and isinstance(cnt.value, int) \
+                        and not isinstance(cnt.value, bool) and 1 <= cnt.value <= 4 \
+                        and all(isinstance(x, (ast.Name, ast.Attribute, ast.Constant, ast.Load)) for x in ast.walk(seq.elts[0])):
+                    self.k += 1
+                    import copy as _cp
+                    return ast.copy_location(ast.Tuple(elts=[_cp.deepcopy(seq.elts[0]) for _ in range(cnt.value)], ctx=ast.Load()), n)
+        return n
+
     def visit_Compare(self, n):
         self.generic_visit(n)
         # `"k" in D.files` - membership in an NpzFile is membership in its list of keys
@@ -171,6 +184,7 @@ class _Spell(ast.NodeTransformer):
         if isinstance(f, ast.Attribute) and f.attr == "diagonal" and not n.args and not n.keywords and "diagonal" in self.np:
             self.k += 1
             return ast.copy_location(ast.Call(func=ast.Name(id="diagonal", ctx=ast.Load()), args=[f.value], keywords=[]), n)
+        # zeros((n,) * 2) and the like are handled in visit_BinOp
         # minimize_scalar(fun=F, ..) / minimize(fun=F, ..): the objective written first, as the repository does
         if isinstance(f, ast.Name) and f.id in ("minimize_scalar", "minimize", "differential_evolution", "fmin_l_bfgs_b") and not n.args:
             kw = [k_ for k_ in n.keywords if k_.arg in ("fun", "func")]
@@ -433,7 +447,7 @@ def _split_tuple_assignments(tree):
                             b_ = b_.value
                         if not isinstance(t, ast.Name):
                             written.add(ast.unparse(b_))
-                    pure_rhs = all(isinstance(v, (ast.Name, ast.Constant, ast.Attribute)) for v in st.value.elts) or not written
+                    pure_rhs = not written or not any(isinstance(x, (ast.Call, ast.Await, ast.Yield, ast.NamedExpr)) for v in st.value.elts for x in ast.walk(v))
                     if pure_rhs and not any(isinstance(x, ast.Name) and x.id in names for v in st.value.elts for x in ast.walk(v)) \
                             and not any(ast.unparse(x) in written for v in st.value.elts for x in ast.walk(v) if isinstance(x, (ast.Attribute, ast.Name))):
                         for t, v in zip(st.targets[0].elts, st.value.elts):
